@@ -46,9 +46,30 @@
 (declare-fun VerifiedSeed (Iface Int Str Str Str) Bool)
 ;; spec Commits (Iface Int Iface Str) Bool
 (declare-fun Commits (Iface Int Iface Str) Bool)
-;; spec CommitteeOf (Iface Iface Int Int) Slice_S_interfaces_CommitteeMember
+;; spec CommitteeOf (Iface Iface Int Int) Slice_S_interfaces_CommitteeMember : []interfaces.CommitteeMember
 (declare-fun CommitteeOf (Iface Iface Int Int) Slice_S_interfaces_CommitteeMember)
 ;; spec SeedOf (Str) Int
 (declare-fun SeedOf (Str) Int)
 ;; spec SeedBytes (Int) Str
 (declare-fun SeedBytes (Int) Str)
+;; section storagelog
+; A-STORE: the content of the consumer-supplied Storage as functions of (storage, version, key); versions are ghost
+; counters bumped by the Store operations of the corresponding kind.
+;; needs-type []*interfaces.CommitMessage
+;; needs-type []*interfaces.PrepareMessage
+;; needs-type []*interfaces.ViewChangeMessage
+;; spec PIds (Iface Int Int Int Str) Slice_BS : []primitives.MemberId
+(declare-fun PIds (Iface Int Int Int Str) Slice_BS)
+;; spec PMsgs (Iface Int Int Int Str) Slice_Int : []*interfaces.PrepareMessage
+(declare-fun PMsgs (Iface Int Int Int Str) Slice_Int)
+;; spec CIds (Iface Int Int Int Str) Slice_BS : []primitives.MemberId
+(declare-fun CIds (Iface Int Int Int Str) Slice_BS)
+;; spec CMsgs (Iface Int Int Int Str) Slice_Int : []*interfaces.CommitMessage
+(declare-fun CMsgs (Iface Int Int Int Str) Slice_Int)
+;; spec VCMsgs (Iface Int Int Int) Slice_Int : []*interfaces.ViewChangeMessage
+(declare-fun VCMsgs (Iface Int Int Int) Slice_Int)
+;; section quorum_axioms2
+;; provides SWP MemPred
+; lemma-axiom (proved in specs/lemmas/quorum_sums.smt2): an empty id list selects no weight
+(assert (forall ((ids Slice_BS) (a (Array Int S_interfaces_CommitteeMember)) (n Int))
+  (! (=> (<= (len_Slice_BS ids) 0) (= (SWP (MemPred ids a) a n) 0)) :pattern ((SWP (MemPred ids a) a n)))))
